@@ -27,6 +27,16 @@ named as written (clauses DirBelowRoot / DirInjective / DirNotCapture / Fs / Dir
 enumerates all short names and pairs over a sub-alphabet {a, b} + three such atoms that rotates with the seed (NL_Sub; all
 windows in the thorough tier); the random name lists are drawn over small random sub-alphabets, and a share of the random
 command lists runs under such a name instead of 'task'.
+
+Families of tasks with related names: "the captured output files belong to that task only" speaks of several tasks under the
+same roots.  For each class that captures output (RunTask, BuildTask, CheckoutTask) families of 2-3 tasks run in the same
+output / log roots -- one after the other, or together under one scheduler -- under names related the way file-name handling
+could conflate (they differ only after the last dot, only by case, by a trailing dot / space, one is a prefix of the other,
+one is another plus .log / .out / .stdout, several dots, a leading dot).  Each task has its own command list and its tokens
+carry its number; AFTER ALL tasks of the family have run every task is judged by the clauses of RunCmd on its own capture
+files (Capture: exactly its commands' tokens in order) and by OwnFiles (its capture files are no other task's).  RunTask's
+files are looked for in <output root>/<name>/; the log of a BuildTask / CheckoutTask is the file the result names (build_log /
+checkout_log): the log root is documented as shared, one file per task.  Key suffix /name-family:<relation>.
 """
 import json
 import os
@@ -43,16 +53,20 @@ SPEC = os.path.join(tlc.SPECS, 'RunCmd.tla')
 TRACE = os.path.join(tlc.SPECS, 'RunCmdTrace.tla')
 RUN_INVS = ['C19_DoneIffAllZero', 'C19_FailedOtherwise', 'C19_StopAtFirst', 'C19_CodesOfRun', 'C19_Capture',
             'C19_NeverEscapes', 'C19_Progress']
-NAME_INVS = ['C19_DirBelowRoot', 'C19_DirInjective', 'C19_DirNotCapture', 'C19_Rejected']
+NAME_INVS = ['C19_DirBelowRoot', 'C19_DirInjective', 'C19_DirNotCapture', 'C19_Rejected', 'C19_OwnFiles']
 ATOMS = {'a': 'a', 'b': 'b', '.': '.', '/': '/', 'NUL': '\0', 'stdout': 'stdout', 'stderr': 'stderr', 'sp': ' ',
          'e9': u'é', 'dash': '-', 'nl': '\n',
          # what a shell / the environment / glob / path expansion would interpret.  The concrete spelling must stay uniquely
          # decodable into atoms (TLC's names are sequences of atoms): '${' is an atom, so '{' alone must not be one
          'dol': '$', 'dolbr': '${', 'rbr': '}', 'tilde': '~', 'star': '*', 'qm': '?', 'pct': '%', 'bsl': '\\', 'sq': "'",
          'dq': '"', 'bq': '`', 'semi': ';', 'lsq': '[', 'hash': '#'}
+# atoms of the families of related names only (not drawn by the random name lists)
+FAMILY_ATOMS = {'A': 'A', 'log': 'log', 'out': 'out'}
 LETTERS = ['a', 'b', 'stdout', 'stderr']
 INTERPRETED = ['dol', 'dolbr', 'rbr', 'tilde', 'star', 'qm', 'pct', 'bsl', 'sq', 'dq', 'nl', 'dash', 'bq', 'semi', 'lsq', 'hash']
 PLAIN = [a for a in ATOMS if a not in LETTERS and a not in INTERPRETED]
+RANDOM_ATOMS = list(ATOMS)
+ATOMS.update(FAMILY_ATOMS)
 # the process environment while named tasks run: variables that names over the letter atoms refer to ($a, ${ab}, %b%, ..)
 # with the values another task's name, the way up, the directory itself, nothing, a capture file of another task
 NAME_ENV = {'a': 'b', 'b': '..', 'ab': 'a', 'ba': 'stdout', 'aa': '.', 'bb': '', 'stdout': 'a', 'stderr': 'a/stdout'}
@@ -129,7 +143,15 @@ def _cli(i, cmd, aux):
     return ['sh', '-c', '; '.join(parts)]
 
 
-def _tokens(path, stream):
+def _own(num, base):
+    """Command number of a token as its task sees it.  base = None: the only task.  In a family the tokens of member j are
+    numbered from base = 100 j: a token of another member is foreign (0)."""
+    if base is None:
+        return num
+    return num - base if base < num < base + 100 else 0
+
+
+def _tokens(path, stream, base=None):
     """Tokens in a capture file.  stdout must consist of O-tokens only; on stderr everything that is not a
     token is extra (the `$ cmd` echo lines).  A token of the other stream, or foreign bytes on stdout, show as [0, 0]."""
     try:
@@ -143,10 +165,10 @@ def _tokens(path, stream):
         if stream == 'O' and m.start() != pos:
             toks.append([0, 0])
         pos = m.end()
-        if m.group(1).decode() != stream:
+        if m.group(1).decode() != stream or not _own(int(m.group(2)), base):
             toks.append([0, 0])
         else:
-            toks.append([int(m.group(2)), int(m.group(3))])
+            toks.append([_own(int(m.group(2)), base), int(m.group(3))])
     if stream == 'O' and pos != len(data):
         toks.append([0, 0])
     return toks
@@ -232,13 +254,14 @@ exit 0
 """
 
 
-def _log_tokens(path, stream):
+def _log_tokens(path, stream, base=None):
     try:
         with open(path, 'rb') as f:
             data = f.read()
     except OSError:
         return [[-1, -1]]
-    return [[int(m.group(2)), int(m.group(3))] for m in _TOKEN.finditer(data) if m.group(1).decode() == stream]
+    return [[_own(int(m.group(2)), base), int(m.group(3))] if _own(int(m.group(2)), base) else [0, 0]
+            for m in _TOKEN.finditer(data) if m.group(1).decode() == stream]
 
 
 def observe_tool(case):
@@ -381,8 +404,197 @@ def _run_agrees(st, obs):
 def run_key(case, clauses):
     first_bad = next((c for c in case['cmds'] if c['exit'] != 0), None)
     shape = 'all-zero' if first_bad is None else 'cannot-start' if first_bad['exit'] is None else 'nonzero'
-    via = case.get('via', 'run') + ('/rerun' if case.get('prior') else '') + ('/name-interpreted' if case.get('name') else '')
+    via = (case.get('via', 'run') + ('/rerun' if case.get('prior') else '') + ('/name-interpreted' if case.get('name') else '')
+           + ('/name-family:' + case['rel'] if case.get('rel') else ''))
+    if case.get('rel'):       # a family: the class is the relation of the names, whatever the command list of the member
+        return 'C19/%s/%s/%s' % (via, case['mode'], '+'.join(sorted(set(clauses))))
     return 'C19/%s/%s/%s/%s' % (via, case['mode'], shape, '+'.join(sorted(set(clauses))))
+
+
+# ---------------------------------------------------------------------------------------------
+# op = "run", families: 2-3 tasks of one class with related names in the same roots, each with its own command list
+
+RELATIONS = ['after-last-dot', 'case', 'prefix', 'plus-suffix', 'several-dots', 'leading-dot', 'trailing']
+_STRAY = """#!/bin/sh
+: > '%s'
+exit 0
+"""
+
+
+def _related_names(rng, rel, size=None):
+    """2-3 distinct valid task names (atoms: letters, dots, a space; no '/', no NUL, not '.', not '..') related by `rel`."""
+    letters = ['a', 'b', 'A', 'stdout', 'log']
+    stem = [rng.choice(letters) for _x in range(rng.randint(1, 2))]
+    x, y, z = rng.sample(['a', 'b', 'A', 'log', 'out', 'stdout', 'stderr'], 3)
+    if rel == 'after-last-dot':
+        cands = [stem + ['.', x], stem + ['.', y], stem + ['.', z]]
+    elif rel == 'case':
+        stem = ['a'] + stem
+        cands = [stem, ['A'] + stem[1:], stem + ['.', 'a'], stem + ['.', 'A']]
+    elif rel == 'prefix':
+        cands = [stem, stem + [x], stem + [x, y], stem + ['.', x]]
+    elif rel == 'plus-suffix':
+        sfx = rng.sample(['log', 'out', 'stdout', 'stderr'], 2)
+        cands = [stem, stem + ['.', sfx[0]], stem + ['.', sfx[0], '.', sfx[1]], stem + ['.', sfx[0], '.', sfx[0]]]
+    elif rel == 'several-dots':
+        cands = [stem + ['.', x, '.', y], stem + ['.', x, '.', z], stem + ['.', '.', y], stem + ['.', x]]
+    elif rel == 'leading-dot':
+        cands = [['.'] + stem, stem, ['.'] + stem + ['.', x], ['.'] + stem + ['.', y]]
+    else:
+        cands = [stem, stem + ['.'], stem + ['sp'], stem + ['.', '.'], stem + ['.', 'sp']]
+    size = size or rng.randint(2, 3)
+    names = cands[:2] + rng.sample(cands[2:], size - 2)     # the first two carry the relation
+    rng.shuffle(names)
+    return names
+
+
+def _member_case(case, j):
+    """Member j of a family as a case of its own (what TLC judges)."""
+    m = case['family'][j]
+    return dict(op='run', via=case['via'], mode=case['mode'], cmds=m['cmds'], rel=case['rel'])
+
+
+def _members(case, obs):
+    """[(case, observation)] as judged by TLC: a family is judged member by member."""
+    if 'family' not in case:
+        return [(case, obs)]
+    return [(_member_case(case, j), o) for j, o in enumerate(obs['members'])]
+
+
+def observe_family(case):
+    """Run the tasks of case['family'] (name, cmds; targets / cflags / bflags / ref for via = build / checkout) in the same
+    roots: mode 'direct' one after the other by do(), mode 'sched' together under one scheduler with one worker per task (the
+    roots exist beforehand then).  Every member is observed after ALL have run; its observation carries `files` (its capture
+    files, numbered by real path) and `others` (those of the other members)."""
+    root = _scratch('c19f')
+    with _environ(root, case.get('env')):
+        old_path = os.environ.get('PATH', '')
+        try:
+            return _observe_family(case, root)
+        finally:
+            os.environ['PATH'] = old_path
+            shutil.rmtree(root, ignore_errors=True)
+
+
+def _observe_family(case, root):
+    # pylint: disable=too-many-locals,too-many-branches,too-many-statements
+    from valjean.cosette.run import RunTask
+    from valjean.cosette.code import BuildTask, CheckoutTask
+    from valjean.cosette.env import Env
+    from valjean.cosette.task import TaskStatus
+    via, fam = case['via'], case['family']
+    out_root = os.path.join(root, 'out')
+    side = os.path.join(root, 'side')              # the log root is not below the output root: a task may be named '.log'
+    config = _config(out_root, side)
+    if case['mode'] == 'sched':
+        os.makedirs(out_root)
+        os.makedirs(os.path.join(side, '.log'))
+    names = [concretise(m['name']) for m in fam]
+    log_key = {'build': 'build_log', 'checkout': 'checkout_log'}.get(via)
+    tasks, auxs, scripted = [], [], []
+    if via != 'run':
+        # whatever else than the member's own tool a task might start as cmake / git leaves a mark: the family is not judged
+        bindir = os.path.join(root, '.bin')
+        os.makedirs(bindir)
+        with open(os.path.join(bindir, 'stray'), 'w') as f:
+            f.write(_STRAY % os.path.join(root, '.stray'))
+        os.chmod(os.path.join(bindir, 'stray'), 0o755)
+        for exe in ('cmake', 'git'):
+            os.symlink('stray', os.path.join(bindir, exe))
+        os.environ['PATH'] = bindir + os.pathsep + os.environ.get('PATH', '')
+        os.makedirs(os.path.join(root, 'src'))
+    for j, m in enumerate(fam):
+        aux = os.path.join(root, '.aux', str(j))
+        os.makedirs(aux)
+        auxs.append(aux)
+        base = 100 * j
+        if via == 'run':
+            tasks.append(RunTask.from_clis(names[j], [_cli(base + i, c, aux) for i, c in enumerate(m['cmds'], 1)]))
+            scripted.append(False)
+            continue
+        plan = m['cmds']
+        if plan and plan[0]['exit'] is None:
+            tool = _cli(1, plan[0], aux)[0]
+        else:
+            tool = os.path.join(aux, 'tool')
+            with open(tool, 'w') as f:
+                f.write(_TOOL % aux)
+            os.chmod(tool, 0o755)
+            for i, c in enumerate(plan, 1):
+                with open(os.path.join(aux, 'cmd-%d.sh' % i), 'w') as f:
+                    f.write(_cli(base + i, c, aux)[2] + '\n')
+        scripted.append(tool == os.path.join(aux, 'tool'))
+        if via == 'build':
+            targets = [['x', 'y', 'z'][t] for t in range(m['targets'])] if m.get('targets', -1) >= 0 else None
+            tasks.append(type('ScriptedBuildTask', (BuildTask,), {'CMAKE': tool})(
+                names[j], os.path.join(root, 'src'), targets=targets, configure_flags=m.get('cflags'), build_flags=m.get('bflags')))
+        else:
+            tasks.append(type('ScriptedCheckoutTask', (CheckoutTask,), {'GIT': tool})(
+                names[j], repository=os.path.join(root, 'repo'), flags=m.get('cflags'), ref=m.get('ref')))
+    members = [dict(status='NONE', raised=False, escaped=False, rcs=[], exc='') for _m in fam]
+    entries = [None] * len(fam)
+    if case['mode'] == 'direct':
+        for j, task in enumerate(tasks):
+            try:
+                env_up, status = task.do(Env(), config)
+                members[j]['status'] = TaskStatus(status).name
+                entries[j] = env_up[names[j]]
+            except Exception as ex:  # pylint: disable=broad-except
+                members[j]['raised'] = True
+                members[j]['exc'] = type(ex).__name__
+    else:
+        from valjean.cosette.depgraph import DepGraph
+        from valjean.cosette.scheduler import Scheduler
+        from valjean.cosette.backends.queue import QueueScheduling
+        env = Env()
+        try:
+            graph = DepGraph.from_dependency_dictionary({task: [] for task in tasks})
+            Scheduler(hard_graph=graph, backend=QueueScheduling(n_workers=len(tasks))).schedule(config=config, env=env)
+        except Exception as ex:  # pylint: disable=broad-except
+            for o in members:
+                o['escaped'] = True
+                o['exc'] = type(ex).__name__
+        for j, o in enumerate(members):
+            entry = env.get(names[j], {})
+            try:
+                o['status'] = TaskStatus(entry.get('status')).name
+            except ValueError:
+                o['status'] = 'NONE'
+            if ('return_codes' if via == 'run' else log_key) in entry:
+                entries[j] = entry
+            else:
+                o['raised'] = True            # the task ended without a result: by an exception
+    # ---- all tasks have run: what each one's capture files hold now
+    ids = {}
+    for j, (o, entry) in enumerate(zip(members, entries)):
+        base = 100 * j
+        if via == 'run':
+            own_dir = os.path.join(out_root, names[j])
+            paths = [os.path.join(own_dir, 'stdout'), os.path.join(own_dir, 'stderr')]
+            if entry is not None:
+                o['rcs'] = [int(x) for x in entry['return_codes']]
+                paths += [os.fspath(entry['stdout']), os.fspath(entry['stderr'])]
+                if os.path.dirname(paths[2]) != os.path.realpath(own_dir):
+                    o['exc'] = 'capture files outside the task directory: %s' % (paths[2:],)
+                    o['status'] = 'NONE'
+            o['out'] = _tokens(paths[0], 'O', base)
+            o['err'] = _tokens(paths[1], 'E', base)
+        else:
+            try:
+                with open(os.path.join(auxs[j], 'count')) as f:
+                    o['invoked'] = int(f.read().strip() or 0)
+            except OSError:
+                o['invoked'] = 0
+            o['unbound'] = bool(scripted[j] and o['invoked'] == 0) or os.path.exists(os.path.join(root, '.stray'))
+            o['rcs'] = [c['exit'] for c in _ran(fam[j], o) if c['exit'] is not None]
+            # the log is the file the result names; a task that ended without a result names none (and ran nothing)
+            paths = [os.fspath(entry[log_key])] if entry is not None else []
+            o['out'] = _log_tokens(paths[0], 'O', base) if paths else []
+            o['err'] = _log_tokens(paths[0], 'E', base) if paths else []
+        o['files'] = sorted(set(ids.setdefault(os.path.realpath(p), len(ids) + 1) for p in paths))
+    for j, o in enumerate(members):
+        o['others'] = sorted(set(f for i, other in enumerate(members) if i != j for f in other['files']))
+    return dict(members=members, unbound=any(o.get('unbound') for o in members))
 
 
 # ---------------------------------------------------------------------------------------------
@@ -536,10 +748,10 @@ def _json_case(cid, case, obs):
         return dict(id=cid, op='run', mode=case['mode'],
                     cmds=[dict(exit=[] if c['exit'] is None else [c['exit']], nout=c['nout'], nerr=c['nerr']) for c in case['cmds']],
                     obs=dict(status=obs['status'], raised=obs['raised'], escaped=obs['escaped'], rcs=obs['rcs'],
-                             out=obs['out'], err=obs['err']),
+                             out=obs['out'], err=obs['err'], files=obs.get('files', []), others=obs.get('others', [])),
                     names=[], accepted=[], dirs=[], fs=[])
     return dict(id=cid, op='names', mode='direct', cmds=[],
-                obs=dict(status='NONE', raised=False, escaped=False, rcs=[], out=[], err=[]),
+                obs=dict(status='NONE', raised=False, escaped=False, rcs=[], out=[], err=[], files=[], others=[]),
                 names=[list(n) for n in case['names']], accepted=obs['accepted'], dirs=obs['dirs'], fs=obs['fs'])
 
 
@@ -549,7 +761,7 @@ def tlc_verdict(records, wd, ctx=None, name='RunCmdTrace'):
     oj = os.path.join(wd, 'verdict_%s.json' % name.replace('/', '_'))
     cfg = tlc.write_cfg(os.path.join(wd, 'trace.cfg'), spec='TSpec', constants={'NoStart': Raw('NoStart')},
                         invariants=['C19_DoneIffAllZero', 'C19_CodesOfRun', 'C19_Capture', 'C19_DirBelowRoot', 'C19_DirInjective',
-                                    'C19_DirNotCapture', 'C19_Rejected'],
+                                    'C19_DirNotCapture', 'C19_Rejected', 'C19_OwnFiles'],
                         deadlock=False, postcondition='Post')
     res = tlc.run(TRACE, cfg, workers=1, coverage=False, env=dict(VERIF_CASES=cj, VERIF_OUT=oj), timeout=3000)
     if ctx is not None:
@@ -602,7 +814,21 @@ def _fs_probes():
     return probes
 
 
+def _own_probes():
+    """Made-up observations of a member of a family (two commands, DONE) with the verdict OwnFiles / Capture must give."""
+    case = dict(op='run', mode='direct', rel='probe', cmds=[dict(exit=0, nout=1, nerr=1, how=''), dict(exit=0, nout=1, nerr=0, how='')])
+    good = dict(status='DONE', raised=False, escaped=False, rcs=[0, 0], out=[[1, 1], [2, 1]], err=[[1, 1]], files=[1, 2], others=[3, 4, 5])
+    return [(case, good, set()),
+            (case, dict(good, others=[]), set()),
+            (case, dict(good, others=[2, 3]), {'OwnFiles'}),                                   # a capture file is another task's too
+            (case, dict(good, files=[1], others=[1]), {'OwnFiles'}),
+            (case, dict(good, out=[[1, 1], [2, 1], [0, 0]]), {'Capture'}),                     # another task's token after its own
+            (case, dict(good, out=[[0, 0]], err=[[0, 0]], others=[1]), {'Capture', 'OwnFiles'})]   # overwritten by the other task
+
+
 def _observe(case):
+    if 'family' in case:
+        return observe_family(case)
     if case['op'] == 'run':
         return observe_run(case) if case.get('via', 'run') == 'run' else observe_tool(case)
     return observe_names(case['names'], case.get('env'))
@@ -615,10 +841,20 @@ def replay_case(case):
     if obs.get('unbound'):
         return True, 'not judged: the scripted %s was never invoked (the harness could not put its tool in place): %s' % (
             'cmake' if case.get('via') == 'build' else 'git', obs)
-    verdict = tlc_verdict([(1, case, obs)], tlc.workdir('c19r'))
+    verdict = tlc_verdict([(j, c, o) for j, (c, o) in enumerate(_members(case, obs), 1)], tlc.workdir('c19r'))
     if not verdict:
         return True, 'all clauses of RunCmd.tla hold on the observation %s' % (obs,)
+    if 'family' in case:
+        return False, 'after all tasks of the family have run: ' + _family_what(case, obs, verdict)
     return False, 'clauses %s false on the observation %s' % (sorted(verdict[1]), obs)
+
+
+def _family_what(case, obs, failing):
+    """failing: {member number (1-based): clauses}."""
+    return '; '.join('task %r (%s): clauses %s false on %s' % (
+        concretise(case['family'][j - 1]['name']), [(c['exit'], c['nout'], c['nerr']) for c in case['family'][j - 1]['cmds']],
+        sorted(cl), {k: v for k, v in obs['members'][j - 1].items() if k not in ('exc', 'escaped', 'unbound') or v})
+                     for j, cl in sorted(failing.items())) + ' -- names %s' % ([concretise(m['name']) for m in case['family']],)
 
 
 # ---------------------------------------------------------------------------------------------
@@ -669,13 +905,24 @@ def run_c19(ctx):
              'name lists over a larger alphabet (two in three over a small random sub-alphabet of letters and interpreted atoms; a '
              'quarter of the command lists under such a task name) are executed and judged by TLC (RunCmdTrace.tla); so are BuildTask and CheckoutTask '
              '(valjean/cosette/code.py) with a scripted cmake / git that counts its invocations and exits as the plan says: the '
-             'command list judged is the plan up to the number of invocations, targets / flags / ref vary. distinct_nontrivial counts '
-             'distinct cases with at least one non-zero status, unstartable command or invalid / colliding name.')
+             'command list judged is the plan up to the number of invocations, targets / flags / ref vary. '
+             'Families: for RunTask, BuildTask and CheckoutTask 2-3 tasks with related names (differing only after the last dot, only by '
+             'case, by a trailing dot / space, one a prefix of the other, one = another + .log/.out/.stdout, several dots, a leading dot) '
+             'run in the same output / log roots, one after the other or together under one scheduler, each with its own command list '
+             '(TLC\'s terminal states in threes, and random plans); every member is judged AFTER ALL have run, on its own capture files '
+             '(the clauses above + OwnFiles: its capture files are no other task\'s); pairs of related names also go through op = names. '
+             'distinct_nontrivial counts distinct cases with at least one non-zero status, unstartable command or invalid / colliding '
+             'name, and every family.')
     ctx.assume('a task may leave other files in its own directory (the statement speaks of the capture files only): the required '
                'entries must be there, anything else must lie below the directory of an accepted task (clause Fs)')
     ctx.assume('the executable of BuildTask / CheckoutTask is set as class attribute of a throw-away subclass before '
                'instantiation (and put first on PATH); a startable scripted tool that was never invoked is DRIFT, not judged')
-    ctx.assume('single task per scheduler run (no interleaving claim); sh and printf behave as POSIX says')
+    ctx.assume('under the scheduler: one task, or the independent tasks of a family with one worker each and the output / log roots '
+               'created beforehand (no claim about who creates a shared root first); sh and printf behave as POSIX says; the scratch '
+               'file system is case-sensitive')
+    ctx.assume('BuildTask / CheckoutTask: the log root is documented as shared, one log file per task -- demanded of a family: the '
+               'log files the results name (build_log / checkout_log) are distinct and each holds its own task\'s output only; no '
+               'per-task directory is demanded there')
     ctx.assume('stderr: the commands\' tokens must appear in order; the `$ cmd` echo lines are extra (DESIGN 8.1)')
     ctx.assume('called directly, a command that cannot be started may surface as an exception of do() or as a FAILED result; '
                'under the scheduler the task must be FAILED and schedule() must return')
@@ -683,9 +930,12 @@ def run_c19(ctx):
     t0 = time.time()
     dbg = (lambda m: print('  [c19 %.1fs] %s' % (time.time() - t0, m))) if os.environ.get('VERIF_DEBUG') else (lambda m: None)
     wd = tlc.workdir('c19')
-    import valjean.cosette.run, valjean.cosette.scheduler, valjean.config   # noqa: E401,F401  (before the fork)
+    import valjean.cosette.run, valjean.cosette.code, valjean.cosette.scheduler, valjean.config   # noqa: E401,F401  (before the fork)
     pool = multiprocessing.get_context('fork').Pool(_POOL)    # the observations are GIL-bound python + fork/exec
     n_exec = 0
+    import random
+    frng = random.Random(ctx.seed * 7919 + 19)     # names / plans of the families (a stream of its own)
+    model_fams = []       # families made of TLC's command lists: also judged by RunCmdTrace (OwnFiles)
 
     # ---- spec -> code: command lists
     run_cfgs = [('run-direct', _consts(3, [0, 1, 3], ctx.pick([0, 1], [0, 1, 2]), ['direct'], ['run'], 'NL_None')),
@@ -711,14 +961,40 @@ def run_c19(ctx):
                 ctx.distinct(('run', case['mode'], tuple((c['exit'], c['nout'], c['nerr']) for c in case['cmds'])))
             if n_exec % 1499 == 1:
                 ctx.sample(dict(case=case, observed=obs, expected=exp))
+        # the same command lists as families: three consecutive terminal states of TLC run as tasks with related names in the
+        # same roots (under one scheduler when mode = sched); every member is compared with its own TLC state after all ran
+        step = 3 if len(states) < 200 else ctx.pick(24, 6)
+        groups = [list(range(k, k + 3)) for k in range(0, len(states) - 2, step)]
+        fams = []
+        for g in groups:
+            rel = RELATIONS[len(fams) % len(RELATIONS)]
+            fams.append(dict(op='run', via='run', mode=states[g[0]]['mode'], rel=rel,
+                             family=[dict(name=nm, cmds=_state_to_run_case(states[k])['cmds'])
+                                     for nm, k in zip(_related_names(frng, rel, 3), g)]))
+        fam_obs = pool.map(observe_family, fams, chunksize=4)
+        dbg('%s: %d families executed' % (name, len(fams)))
+        for g, fam, fobs in zip(groups, fams, fam_obs):
+            n_exec += len(g)
+            model_fams.append((fam, fobs))
+            failing = {j: _run_agrees(states[k], o)[0] for j, (k, o) in enumerate(zip(g, fobs['members']), 1)}
+            failing = {j: cl for j, cl in failing.items() if cl}
+            if failing:
+                first = min(failing)
+                ctx.violation(run_key(_member_case(fam, first - 1), [c for cl in failing.values() for c in cl]),
+                              'after all tasks of the family have run: %s; RunCmd.tla: %s' % (
+                                  _family_what(fam, fobs, failing), _run_agrees(states[g[first - 1]], fobs['members'][first - 1])[1]),
+                              fam, module='conf_runcmd')
+            ctx.distinct(('family', 'run', fam['mode'], tuple((tuple(m['name']), tuple((c['exit'], c['nout'], c['nerr']) for c in m['cmds']))
+                                                               for m in fam['family'])))
 
     # ---- spec -> code: names
     model_names = []      # these observations also go to RunCmdTrace: what was found beyond the TLC state is judged there
     # names some layer would interpret: one sub-alphabet per quick run (it rotates with the seed), all of them in the thorough tier
     wins = _windows()
     sub = [wins[ctx.seed % len(wins)]]
-    name_cfgs = [('names-triples', 'NL_Triples', ()), ('names-singles', 'NL_SinglesSub', sub)]
+    name_cfgs = [('names-triples', 'NL_TriplesRel', ()), ('names-singles', 'NL_SinglesSub', sub)]    # + pairs of related names
     if not ctx.quick:
+        name_cfgs.append(('names-related', 'NL_Related', ()))
         name_cfgs.append(('names-pairs', 'NL_Pairs', ()))
         name_cfgs.append(('names-sub', 'NL_Sub', wins))
     dbg('sub-alphabet of NL_Sub: %s' % (sub,))
@@ -756,7 +1032,8 @@ def run_c19(ctx):
             ('W_SchedFailed', _consts(2, [0, 1], [1], ['sched'], ['run'], 'NL_None')),
             ('W_Rejected', _consts(0, [0], [0], ['direct'], ['names'], 'NL_Triples')),
             ('W_NestedName', _consts(0, [0], [0], ['direct'], ['names'], 'NL_Triples')),
-            ('W_OddNamePair', _consts(0, [0], [0], ['direct'], ['names'], 'NL_Sub', alphabets=sub)))
+            ('W_OddNamePair', _consts(0, [0], [0], ['direct'], ['names'], 'NL_Sub', alphabets=sub)),
+            ('W_RelatedPair', _consts(0, [0], [0], ['direct'], ['names'], 'NL_TriplesRel')))
 
     def _witness(arg):
         wit, consts = arg
@@ -766,7 +1043,7 @@ def run_c19(ctx):
             raise tlc.MachineryError('witness %s not reachable in RunCmd.tla' % wit)
 
     from concurrent.futures import ThreadPoolExecutor
-    with ThreadPoolExecutor(max_workers=7) as tp:
+    with ThreadPoolExecutor(max_workers=8) as tp:
         list(tp.map(_witness, wits))
     ctx.count(evaluations=n_exec, traces=n_exec)
 
@@ -799,7 +1076,7 @@ def run_c19(ctx):
         cases.append(dict(op='run', via=rng.choice(['build', 'build', 'checkout']), mode='sched' if rng.random() < 0.3 else 'direct',
                           cmds=cmds, targets=rng.choice([-1, 0, 1, 2, 3]), cflags=rng.choice([None, [], ['-DA=1']]),
                           bflags=rng.choice([None, [], ['--', '-j2']]), ref=rng.choice([None, 'v1'])))
-    atoms = list(ATOMS)
+    atoms = RANDOM_ATOMS
     n_names = ctx.pick(900, 9000)
     for j_list in range(n_names):
         # two lists in three over a small sub-alphabet of their own (one or two letters -- which are also names of
@@ -815,6 +1092,29 @@ def run_c19(ctx):
             if nm not in names:
                 names.append(nm)
         cases.append(dict(op='names', names=names, env=dict(NAME_ENV)))
+    # families of 2-3 tasks with related names in the same roots, for every class that captures output; every member writes
+    # something as a rule (a shared file shows in Capture, not only in OwnFiles)
+    def _plan(tool):
+        cmds = [dict(exit=frng.choice(codes), nout=frng.randint(0, 2), nerr=frng.randint(0, 2), how='') for _j in range(frng.randint(1, 4))]
+        if frng.random() < 0.08:
+            unstartable = dict(exit=None, nout=0, nerr=0, how=frng.choice(['missing', 'dir', 'noexec']))
+            cmds[0 if tool else frng.randrange(len(cmds))] = unstartable
+        elif cmds[0]['nout'] + cmds[0]['nerr'] == 0:
+            cmds[0]['nout'] = 1
+        return cmds
+    for j_fam in range(ctx.pick(420, 5000)):
+        via = ['run', 'build', 'checkout'][j_fam % 3]
+        rel = RELATIONS[(j_fam // 3) % len(RELATIONS)]
+        fam = []
+        for nm in _related_names(frng, rel):
+            fam.append(dict(name=nm, cmds=_plan(via != 'run')))
+            if via != 'run':
+                fam[-1].update(targets=frng.choice([-1, 0, 1, 2]), cflags=frng.choice([None, [], ['-DA=1']]),
+                               bflags=frng.choice([None, ['--', '-j2']]), ref=frng.choice([None, 'v1']))
+        cases.append(dict(op='run', via=via, mode='sched' if frng.random() < 0.35 else 'direct', rel=rel, family=fam))
+    # ... and lists of related names for the trivial tasks of op = names (directories: DirInjective / DirNotCapture / Fs)
+    for j_fam in range(ctx.pick(140, 1500)):
+        cases.append(dict(op='names', names=_related_names(frng, RELATIONS[j_fam % len(RELATIONS)]), env=dict(NAME_ENV)))
     dbg('witnesses done')
     observations = pool.map(_observe, cases, chunksize=8)
     dbg('random cases executed')
@@ -826,21 +1126,28 @@ def run_c19(ctx):
         if obs.get('unbound'):
             unbound.setdefault(case['via'], []).append((case, obs))
     for via, lst in sorted(unbound.items()):
+        eg_case = _member_case(lst[0][0], 0) if 'family' in lst[0][0] else lst[0][0]
+        eg_obs = lst[0][1]['members'][0] if 'family' in lst[0][0] else lst[0][1]
         ctx.drift('%s: the scripted %s was never invoked in %d of %d cases although it can start (e.g. %s -> %s): the task runs '
                   'another executable than the one set as class attribute / first on PATH; these cases are not judged'
                   % (via, 'cmake' if via == 'build' else 'git', len(lst), sum(1 for c in cases if c.get('via') == via),
-                     {k: lst[0][0][k] for k in ('mode', 'cmds', 'targets')}, {k: lst[0][1][k] for k in ('status', 'raised', 'invoked')}))
-    pairs = [(c, o) for c, o in zip(cases, observations) if not o.get('unbound')] + model_names
-    n_model = len(model_names)
-    probes = _fs_probes()
+                     {k: eg_case.get(k) for k in ('mode', 'cmds', 'targets')}, {k: eg_obs[k] for k in ('status', 'raised', 'invoked')}))
+    # a family is judged member by member: parents[k] = (the case, its observation, member number or 0) of record k + 1
+    parents = [(c, o, j if 'family' in c else 0)
+               for c, o in [(c, o) for c, o in zip(cases, observations) if not o.get('unbound')] + model_names + model_fams
+               for j in range(1, len(_members(c, o)) + 1)]
+    pairs = [_members(c, o)[max(j, 1) - 1] for c, o, j in parents]
+    n_model = len(model_names) + sum(len(o['members']) for _c, o in model_fams)
+    probes = _fs_probes() + _own_probes()
     records = [(cid, case, obs) for cid, (case, obs) in enumerate(pairs + [(c, o) for c, o, _bad in probes], 1)]
     verdict = tlc_verdict(records, wd, ctx, 'RunCmdTrace/random')
     # self-test of the clause Fs on the made-up observations: TLC must fail exactly the ones marked
     for (cid, _case, obs), (_c, _o, must) in zip(records[len(pairs):], probes):
         got = verdict.pop(cid, [])
-        if not must <= set(got) or (not must and got) or ('Fs' in got and 'Fs' not in must):
-            raise tlc.MachineryError('RunCmdTrace: on the made-up observation dirs=%s fs=%s the clauses %s fail, expected %s'
-                                     % (obs['dirs'], obs['fs'], sorted(got), sorted(must) or 'none'))
+        if not must <= set(got) or (not must and got) or any(cl in got and cl not in must for cl in ('Fs', 'OwnFiles', 'Capture')):
+            raise tlc.MachineryError('RunCmdTrace: on the made-up observation %s the clauses %s fail, expected %s'
+                                     % ({k: v for k, v in obs.items() if k in ('dirs', 'fs', 'out', 'err', 'files', 'others')},
+                                        sorted(got), sorted(must) or 'none'))
     records = records[:len(pairs)]
     # Valid(name) as TLC sees it, for the names of the failing lists: a single-name case observed as "rejected"
     # fails the clause Rejected exactly when the name is valid
@@ -850,16 +1157,28 @@ def run_c19(ctx):
         probe = [(j, dict(op='names', names=[list(n)]), dict(accepted=[], dirs=[[]], fs=[])) for j, n in enumerate(suspects, 1)]
         pv = tlc_verdict(probe, wd, None, 'RunCmdTrace/validity')
         valid_of = {n: 'Rejected' in pv.get(j, []) for j, n in enumerate(suspects, 1)}
+    fam_failing = {}
     for cid, clauses in sorted(verdict.items()):
         _cid, case, obs = records[cid - 1]
-        if case['op'] == 'run':
+        if parents[cid - 1][2]:
+            fam_failing.setdefault(id(parents[cid - 1][0]), (parents[cid - 1], {}))[1][parents[cid - 1][2]] = clauses
+        elif case['op'] == 'run':
             ctx.violation(run_key(case, clauses), 'clauses %s false on the observation %s' % (sorted(clauses), obs), case, module='conf_runcmd')
         else:
             key = names_key(case['names'], obs, [valid_of[tuple(n)] for n in case['names']], clauses)
             ctx.violation(key, 'names %s: clauses %s false on accepted=%s dirs=%s fs=%s (%s)'
                           % ([concretise(n) for n in case['names']], sorted(clauses), obs['accepted'], obs['dirs'], obs['fs'], obs['excs']),
                           case, module='conf_runcmd')
+    for (fam, fobs, _j), failing in fam_failing.values():
+        ctx.violation(run_key(_member_case(fam, min(failing) - 1), [c for cl in failing.values() for c in cl]),
+                      'after all tasks of the family have run: ' + _family_what(fam, fobs, failing), fam, module='conf_runcmd')
+    for case, _obs in zip(cases, observations):
+        if 'family' in case:
+            ctx.distinct(('family', case['via'], case['mode'], tuple((tuple(m['name']), tuple((c['exit'], c['nout'], c['nerr']) for c in m['cmds']))
+                                                                     for m in case['family'])))
     for _cid, case, obs in records:
+        if case.get('rel'):
+            continue
         if case['op'] == 'run' and any(c['exit'] != 0 for c in case['cmds']):
             ctx.distinct(('run', case['mode'], tuple((c['exit'], c['nout'], c['nerr']) for c in case['cmds'])))
         elif case['op'] == 'names' and len(obs['accepted']) < len(case['names']):
